@@ -28,24 +28,35 @@ def drop_wt(d):
     shutil.rmtree(d, ignore_errors=True)
 
 def run_checks(tree):
+    """all 20 checks on a tree in one analyser process (one load, one normalised view)"""
     det = {}
-    for p in PROPS:
-        out = tempfile.mkdtemp(prefix="seed-ev-", dir="/tmp")
-        r = subprocess.run([os.path.join(VERIF, "bin", "hlcheck"), "-prop", p, "-repo", tree, "-verif", VERIF, "-out", out], env=ENV, capture_output=True, text=True)
-        shutil.rmtree(out, ignore_errors=True)
-        if r.returncode == 1:
-            rules = sorted(set(l.split()[1].rstrip(":") for l in r.stdout.splitlines() if l.strip().startswith(("VIOLATED", "UNDECIDED"))))
-            first = next((l.strip()[:300] for l in r.stdout.splitlines() if l.strip().startswith(("VIOLATED", "UNDECIDED"))), "")
-            det[p] = dict(rules=rules, first_report=first)
-        elif r.returncode == 2:
+    out = tempfile.mkdtemp(prefix="seed-ev-", dir="/tmp")
+    r = subprocess.run([os.path.join(VERIF, "bin", "hlcheck"), "-prop", "all", "-repo", tree, "-verif", VERIF, "-out", out], env=ENV, capture_output=True, text=True)
+    shutil.rmtree(out, ignore_errors=True)
+    if "== C" not in r.stdout:
+        for p in PROPS:
             det[p] = dict(rules=["CHECKER-ERROR"], first_report=(r.stdout + r.stderr)[-300:])
+        return det
+    sections = {}
+    cur = None
+    for l in r.stdout.splitlines():
+        if l.startswith("== "):
+            cur = l[3:].strip(); sections[cur] = []
+        elif cur:
+            sections[cur].append(l)
+    for p, lines in sections.items():
+        rep = [l.strip() for l in lines if l.strip().startswith(("VIOLATED", "UNDECIDED"))]
+        if any(l.startswith("VIOLATION property=") for l in lines):
+            det[p] = dict(rules=sorted(set(l.split()[1].rstrip(":") for l in rep)), first_report=(rep[0][:300] if rep else ""))
+        elif any("CHECKER-ERROR" in l for l in lines):
+            det[p] = dict(rules=["CHECKER-ERROR"], first_report="\n".join(lines)[-300:])
     return det
 
-def ingest(agent_dir, n, prop):
+def ingest(agent_dir, n, prop, offset=0):
     diff = os.path.join(agent_dir, f"seed{n}.diff"); demo = os.path.join(agent_dir, f"seed{n}_demo"); md = os.path.join(agent_dir, f"seed{n}.md")
     for f in (diff, demo, md):
         if not os.path.exists(f): raise SystemExit("missing " + f)
-    name = f"{prop}-{n}"
+    name = f"{prop}-{int(n) + int(offset)}"
     wt = scratch_wt()
     ran = []
     try:
@@ -132,6 +143,6 @@ def recheck():
         print(d["name"], "->", d["detected_by"] or "NOT DETECTED")
 
 if __name__ == "__main__":
-    if sys.argv[1] == "ingest": ingest(sys.argv[2], sys.argv[3], sys.argv[4])
+    if sys.argv[1] == "ingest": ingest(sys.argv[2], sys.argv[3], sys.argv[4], sys.argv[5] if len(sys.argv) > 5 else 0)
     elif sys.argv[1] == "index": index()
     elif sys.argv[1] == "recheck": recheck()
